@@ -28,15 +28,14 @@ Proof. unfold print_Z. simpl. apply lower_pr_uint. Qed.
 Lemma length_print_pos p : (0 < length (print_Z (Zpos p)))%nat.
 Proof. destruct (print_Z_cons (Zpos p)) as (c & r & E & _). rewrite E. simpl. lia. Qed.
 
-(* valid locators: known type other than "facies" / "gausfac" (whose names start like "f" / "g"), index 0 for the
-   unique types (their name carries no number), index >= 0 otherwise *)
+(* valid locators: known type, index 0 for the unique types (their name carries no number), index >= 0 otherwise *)
 Definition wf_lc (l : lc) : Prop :=
   match l with
   | None => True
   | Some (t, idx) =>
       match nth_error loc_table t with
       | None => False
-      | Some (_, uniq) => t <> 23%nat /\ t <> 24%nat /\ (if uniq then idx = 0 else 0 <= idx)
+      | Some (_, uniq) => if uniq then idx = 0 else 0 <= idx
       end
   end.
 
@@ -45,7 +44,7 @@ Proof. induction a; simpl; auto. Qed.
 
 Lemma loc_identify_multi s t p :
   map lower (W s) = W s ->
-  find_loc loc_table 0 (W s ++ print_Z (Zpos p)) = Some (t, s, false) ->
+  find_loc loc_table 0 (W s ++ print_Z (Zpos p)) None = Some (t, s, false) ->
   loc_identify (W s ++ print_Z (Zpos p)) = Some (Some (t, Zpos p - 1)).
 Proof.
   intros Hl Hf. unfold loc_identify. rewrite map_app, lower_print_pos, Hl, Hf, app_length.
@@ -54,19 +53,26 @@ Proof.
   rewrite Hlt, skipn_app_exact, atoi_print_pos. cbn [andb]. f_equal. f_equal. f_equal. lia.
 Qed.
 
+(* the longest keyword that starts  SREF ++ digits  is SREF itself: decided by computation once the first digit is known *)
+Lemma find_loc_digits s t p :
+  (forall u, u <> Nil -> find_loc loc_table 0 (W s ++ pr_uint u) None = Some (t, s, false)) ->
+  find_loc loc_table 0 (W s ++ print_Z (Zpos p)) None = Some (t, s, false).
+Proof. intros H. unfold print_Z. simpl Z.to_int. simpl pr_int. apply H. apply Unsigned.to_uint_nonnil. Qed.
+
 Lemma loc_identify_name l : wf_lc l -> loc_identify (loc_name l) = Some l.
 Proof.
   destruct l as [[t idx]|]; [|intros _; vm_compute; reflexivity].
   unfold wf_lc. destruct (nth_error loc_table t) as [[s uniq]|] eqn:E; [|tauto].
-  intros (H23 & H24 & Hidx).
+  intros Hidx.
   unfold loc_name. rewrite E.
   do 29 (destruct t as [|t];
-         [ simpl in E; inversion E; subst s uniq; clear E; try congruence;
+         [ simpl in E; inversion E; subst s uniq; clear E;
            first [ (subst idx; vm_compute; reflexivity)
                  | (assert (Hn : (idx <? 0) = false) by (apply Z.ltb_ge; lia); rewrite Hn;
                     destruct (idx + 1) as [|p|p] eqn:Ep; try lia;
                     replace idx with (Zpos p - 1) by lia;
-                    apply loc_identify_multi; reflexivity) ] | ]).
+                    apply loc_identify_multi; [reflexivity|];
+                    apply find_loc_digits; intros u Hu; destruct u; [congruence | reflexivity ..]) ] | ]).
   simpl in E. destruct t; discriminate.
 Qed.
 
@@ -75,14 +81,30 @@ Proof.
   induction 1 as [|l ls Hl _ IH]; simpl; auto. rewrite loc_identify_name, IH; auto.
 Qed.
 
+(* distinct names are not touched by correctNamesForDuplicates *)
+Lemma existsb_weqb_false w prev : ~ In w prev -> existsb (fun x => weqb w x) prev = false.
+Proof.
+  induction prev as [|x prev IH]; simpl; auto. intros H.
+  destruct (weqb w x) eqn:E; [apply weqb_eq in E; exfalso; apply H; auto|]. apply IH. tauto.
+Qed.
+Lemma correct_dups_nodup names : forall prev, NoDup (prev ++ names) -> correct_dups prev names = names.
+Proof.
+  induction names as [|w r IH]; intros prev H; cbn [correct_dups]; auto.
+  assert (Hw : ~ In w prev).
+  { apply NoDup_remove_2 in H. intro K. apply H. apply in_or_app. auto. }
+  cbn [fix_name]. rewrite (existsb_weqb_false _ _ Hw). f_equal. apply IH. rewrite <- app_assoc. exact H.
+Qed.
+Lemma replay_names_nodup names : NoDup names -> replay_names names = names.
+Proof. intros H. apply correct_dups_nodup. exact H. Qed.
+
 (* ------------------------------------------------------------------ Db *)
 Definition wf_row (ncol : Z) (row : list dbl) : Prop := lenZ row = ncol /\ Forall wf_dbl row /\ row <> [].
 Definition wf_Db (o : db) : Prop :=
   db_names o <> [] /\ length (db_locs o) = length (db_names o) /\ db_nech o = lenZ (db_rows o) /\
   Forall (wf_row (lenZ (db_names o))) (db_rows o) /\ forallb good_word (db_names o) = true /\
   Forall wf_lc (db_locs o) /\
-  (* the column names are not changed by the renaming of duplicates against the provisional names "New-k" *)
-  replay_names (db_names o) = db_names o /\
+  (* distinct column names *)
+  NoDup (db_names o) /\
   (* the locators are given back by the locator table after setLocatorByUID column by column *)
   replay_locators (db_locs o) = db_locs o.
 
@@ -106,7 +128,7 @@ Proof.
   { rewrite map_as_flat_map. apply reads_rrepZ; auto.
     intros row Hrow. rewrite Forall_forall in Hrows. destruct (Hrows _ Hrow) as (Hl & Hw & Hn).
     rewrite <- Hl. apply reads_vdbl; auto. }
-  rewrite mapM_loc_identify; auto. apply reads_ret_eq. rewrite Hrn, Hrl. reflexivity.
+  rewrite mapM_loc_identify; auto. apply reads_ret_eq. rewrite (replay_names_nodup _ Hrn), Hrl. reflexivity.
 Qed.
 
 Lemma good_word_app a b : good_word a = true -> forallb good_char b = true -> good_word (a ++ b) = true.
@@ -168,63 +190,5 @@ Proof.
   intros Hn. unfold ser_DbGrid. good.
   - apply forallb_flat_map_true. intros g _. unfold ser_gdim. good.
   - apply good_Db; auto.
-Qed.
-
-(* ------------------------------------------------------------------ a sufficient condition for the names hypothesis *)
-(* distinct names, none of which looks like a provisional name "New-k" of resetDims, are given back unchanged *)
-Lemma set_nth_app {A} (a : list A) x y b : set_nth (length a) x (a ++ y :: b) = a ++ x :: b.
-Proof. induction a; simpl; congruence. Qed.
-Lemma nth_error_app_mid {A} (a : list A) x b : nth_error (a ++ x :: b) (length a) = Some x.
-Proof. induction a; simpl; auto. Qed.
-
-Lemma count_same_none w l skip k : (forall x, In x l -> x <> w) -> count_same w l skip k = O.
-Proof.
-  revert k. induction l as [|x l IH]; intros k H; simpl; auto.
-  rewrite IH by (intros y Hy; apply H; simpl; auto).
-  destruct (Nat.eqb k skip); auto.
-  destruct (weqb x w) eqn:E; auto. apply weqb_eq in E. exfalso. apply (H x); simpl; auto.
-Qed.
-Lemma count_same_app w a b skip k :
-  count_same w (a ++ b) skip k = (count_same w a skip k + count_same w b skip (k + length a))%nat.
-Proof.
-  revert k. induction a as [|x a IH]; intros k; simpl.
-  - rewrite Nat.add_0_r. reflexivity.
-  - rewrite IH. replace (S k + length a)%nat with (k + S (length a))%nat by lia. lia.
-Qed.
-
-Lemma dedupe_unchanged fuel done w rest :
-  (forall x, In x done -> x <> w) -> (forall x, In x rest -> x <> w) ->
-  dedupe fuel (done ++ w :: rest) (length done) = done ++ w :: rest.
-Proof.
-  intros Hd Hr. destruct fuel; simpl; auto. rewrite nth_error_app_mid.
-  rewrite count_same_app. rewrite count_same_none by auto. simpl.
-  rewrite Nat.eqb_refl. rewrite count_same_none by auto. reflexivity.
-Qed.
-
-Lemma set_names_ok names : forall done rest,
-  length rest = length names -> NoDup (done ++ names) -> (forall w, In w names -> ~ In w rest) ->
-  set_names (done ++ rest) (length done) names = done ++ names.
-Proof.
-  induction names as [|w r IH]; intros done rest Hlen Hnd Hdis; cbn [set_names].
-  - destruct rest; simpl in *; try discriminate. reflexivity.
-  - destruct rest as [|d rest']; simpl in Hlen; try discriminate.
-    rewrite set_nth_app. rewrite dedupe_unchanged.
-    + replace (done ++ w :: rest') with ((done ++ [w]) ++ rest') by (rewrite <- app_assoc; reflexivity).
-      replace (S (length done)) with (length (done ++ [w])) by (rewrite app_length; simpl; lia).
-      rewrite IH.
-      * rewrite <- app_assoc. reflexivity.
-      * lia.
-      * rewrite <- app_assoc. exact Hnd.
-      * intros x Hx Hin. apply (Hdis x); simpl; auto.
-    + intros x Hx E. subst x. apply NoDup_remove_2 in Hnd. apply Hnd. apply in_or_app. auto.
-    + intros x Hx E. subst x. apply (Hdis w); simpl; auto.
-Qed.
-
-Lemma replay_names_id names :
-  NoDup names -> (forall w, In w names -> ~ In w (default_names (length names))) -> replay_names names = names.
-Proof.
-  intros Hnd Hdis. unfold replay_names.
-  apply (set_names_ok names [] (default_names (length names))); auto.
-  unfold default_names. rewrite map_length, seq_length. reflexivity.
 Qed.
 
